@@ -451,9 +451,11 @@ package server
 
 // Resolved trees are created by the loader (LoadFromContent, Load) or by the workspace, which record the path of the
 // primary journal in PrimaryPath.
+//@ specfun wsres(s *Server, u protocol.DocumentURI) *include.ResolvedJournal
 //@ trusted (*Server).getWorkspaceResolved
 //@   effects none
 //@   ensures result != nil && result.Primary != nil ==> result.PrimaryPath != ""
+//@   ensures result == wsres(s, docURI)
 
 //@ specfun uriPath(u protocol.DocumentURI) string
 //@ trusted uriToPath
@@ -496,3 +498,21 @@ package server
 //@ func (*Server).References
 //@   props C09
 //@   requires s != nil && params != nil && DocSmall(s, params.TextDocument.URI)
+
+// ---- C20: hover figures are aggregates over the whole include tree ----
+// When the server has a resolved tree for the document (the workspace's, else the document's own), the transaction list
+// the hover text is built from is that tree's list - the tree as resolved, not a variant of it - and the balances shown
+// are the per-account, per-commodity sums over exactly that list. (The clauses speak about the locals the hover text is
+// built from; the text itself is string formatting and is not modelled.)
+//@ trusted findElementAtPosition
+//@   effects none
+//@   ensures result != nil ==> result.rng.Start.Line >= 1 && result.rng.Start.Column >= 1 && result.rng.End.Line >= 1 && result.rng.End.Column >= 1 && result.rng.Start.Line <= 4294967296 && result.rng.Start.Column <= 4294967296 && result.rng.End.Line <= 4294967296 && result.rng.End.Column <= 4294967296
+//@ trusted buildHoverContentWithTransactions
+//@   effects none
+//@ trusted analyzer.CalculateAccountBalances
+//@   ensures fresh(result)
+//@ func (*Server).Hover
+//@   props C20
+//@   requires s != nil && params != nil && DocSmall(s, params.TextDocument.URI)
+//@   ensures [C20:tree_transactions] result0 != nil && wsres(s, params.TextDocument.URI) != nil ==> len(allTransactions) == treeLen(wsres(s, params.TextDocument.URI).Primary, wsres(s, params.TextDocument.URI).Files, wsres(s, params.TextDocument.URI).FileOrder) && (forall i int :: {allTransactions[i]} 0 <= i && i < len(allTransactions) ==> allTransactions[i] == treeAt(wsres(s, params.TextDocument.URI).Primary, wsres(s, params.TextDocument.URI).Files, wsres(s, params.TextDocument.URI).FileOrder, i))
+//@   ensures [C20:balances_are_sums] result0 != nil && wsres(s, params.TextDocument.URI) != nil ==> forall a string, c string :: balances[a][c] == tsum(allTransactions, len(allTransactions), a, c)
